@@ -592,10 +592,10 @@ fn main() {
             let t = a.thorough();
             let mut v: Vec<Box<dyn Part>> = vec![];
             if t {
-                v.push(mk::<u8, Directed, Option<u8>, u16>("Directed, Option<u8>, u16", 4, 5));
-                v.push(mk::<u8, Undirected, Option<u8>, u16>("Undirected, Option<u8>, u16", 4, 5));
-                v.push(mk::<u8, Directed, NotZero<u8>, u8>("Directed, NotZero<u8>, u8", 3, 5));
-                v.push(mk::<i32, Undirected, NotZero<i32>, usize>("Undirected, NotZero<i32>, usize", 3, 5));
+                v.push(mk::<u8, Directed, Option<u8>, u16>("Directed, Option<u8>, u16", 3, 5));
+                v.push(mk::<u8, Undirected, Option<u8>, u16>("Undirected, Option<u8>, u16", 4, 4));
+                v.push(mk::<u8, Directed, NotZero<u8>, u8>("Directed, NotZero<u8>, u8", 3, 4));
+                v.push(mk::<i32, Undirected, NotZero<i32>, usize>("Undirected, NotZero<i32>, usize", 3, 4));
             } else {
                 v.push(mk::<u8, Directed, Option<u8>, u16>("Directed, Option<u8>, u16", 3, 4));
                 v.push(mk::<u8, Undirected, Option<u8>, u16>("Undirected, Option<u8>, u16", 3, 4));
